@@ -5,6 +5,7 @@ import (
 	"encoding/binary"
 	"encoding/hex"
 	"fmt"
+	"math"
 	"strings"
 	"sync"
 	"sync/atomic"
@@ -181,6 +182,13 @@ func (y *c16L1Sys) ops() []c16L1Op {
 		{"Claim(b1,w1)", func(s *c16L1State) sdk.Msg { return y.tree.claim(0, 1, "bob") }},
 		{"UpdateBatchInfo(b1,celestia)", func(s *c16L1State) sdk.Msg { return ophosttypes.NewMsgUpdateBatchInfo(s.w.Authority, 1, cel) }},
 		{"UpdateBatchInfo(b1,initia)", func(s *c16L1State) sdk.Msg { return ophosttypes.NewMsgUpdateBatchInfo(s.w.Authority, 1, ini) }},
+		// a chain type the enum does not declare (the wire format carries any int32)
+		{"UpdateBatchInfo(b1,chain type -2147483648)", func(s *c16L1State) sdk.Msg {
+			return ophosttypes.NewMsgUpdateBatchInfo(s.w.Authority, 1, ophosttypes.BatchInfo{Submitter: a("submitter"), ChainType: ophosttypes.BatchInfo_ChainType(math.MinInt32)})
+		}},
+		{"UpdateBatchInfo(b1,chain type 7)", func(s *c16L1State) sdk.Msg {
+			return ophosttypes.NewMsgUpdateBatchInfo(s.w.Authority, 1, ophosttypes.BatchInfo{Submitter: a("submitter"), ChainType: ophosttypes.BatchInfo_ChainType(7)})
+		}},
 		{"UpdateMetadata(b1)", func(s *c16L1State) sdk.Msg {
 			return ophosttypes.NewMsgUpdateMetadata(s.w.Authority, 1, []byte(`{"note":"x"}`))
 		}},
